@@ -7,6 +7,9 @@ endpoint has already accepted (network duplicate or adversary replay, fewer than
 be rejected, stats.dropped must rise by exactly one and the C01 snapshot must be
 otherwise unchanged.
 """
+import struct
+
+from mon.engines import lockstep as L
 from mon.core.merge import merge, need
 from mon.core.util import Counter, rng
 from mon.engines import traffic as T
@@ -55,6 +58,18 @@ def replay_adversary(run, r, c):
         elif x < 0.408:
             # message flood from both sides so that the 256-message window moves fast
             state["burst"] = 5
+        elif x < 0.425:
+            # a "ring walk": forged datagrams (valid header, garbage body) whose cleartext sequence numbers step once around the
+            # 16-bit ring - a receiver that trusts a header before it is authenticated ends up with an empty window next to the
+            # recorded datagram - then that recorded datagram is replayed.  Forgeries change nothing, the copy is still a duplicate
+            direction, d = log[-r.randint(2, min(len(log), 20))]
+            h = L.parse_header(d)
+            for step_ in (16384, 32768, 49152, 65535 - 40, 65535 - 20, 65535 - 5):
+                seq_f = (h[2] + step_ - 1) % 65535 + 1
+                forged = struct.pack(">4sLHHBHBL", h[0], int(w.clock.now), seq_f, h[3], h[4], h[5], h[6], h[7]) + r.randbytes(len(d) - 20)
+                w.net.inject(direction, c.addr, forged, "forged:ring-walk")
+            w.net.inject(direction, c.addr, d, "replay:after-ring-walk")
+            run.c.inc("adv_ring_walks")
         if state["burst"]:
             state["burst"] -= 1
             for _ in range(40):
@@ -80,7 +95,7 @@ def finish(tier, seed, results):
     m = merge(results)
     inconclusive = []
     need(m["counters"], ["delivered_to_server", "delivered_to_client", "duplicates_dropped", "adv_replay_recent", "adv_replay_beyond_window",
-                         "adv_replay_old", "net_duplicated_c2s", "net_duplicated_s2c", "message_bursts", "recv_genuine"], inconclusive)
+                         "adv_replay_old", "adv_ring_walks", "net_duplicated_c2s", "net_duplicated_s2c", "message_bursts", "recv_genuine"], inconclusive)
     cov = {
         "evaluations": m["evaluations"],
         "distinct_nontrivial": m["distinct_nontrivial"],
